@@ -39,8 +39,8 @@ fn fields(with_optional: bool) -> Vec<Field> {
         f("monitors.0", "addr", "monitors"),
     ];
     if with_optional {
-        v.push(f("protocol_chain_config.oracle_address", "addr", "protocol"));
-        v.push(f("protocol_fee_config.treasury_address", "addr", "fee"));
+        v.push(f("protocol_chain_config.oracle_address", "optaddr", "protocol"));
+        v.push(f("protocol_fee_config.treasury_address", "optaddr", "fee"));
     }
     v
 }
@@ -65,6 +65,12 @@ fn reprefix(addr: &str, hrp: &str) -> Option<String> {
 /// corruption operators; each returns the corrupted JSON value of the field
 fn corruptions(kind: &str, cur: &Value) -> Vec<(String, Value)> {
     let mut out: Vec<(String, Value)> = vec![];
+    if kind == "optaddr" {
+        // an optional address may also be dropped (a valid value: the stored section must then lose it too)
+        let mut v = corruptions("addr", cur);
+        v.push(("absent".into(), Value::Null));
+        return v;
+    }
     match kind {
         "addr" => {
             let s = cur.as_str().unwrap_or("").to_string();
